@@ -334,7 +334,9 @@ def rules(tier):
             # C12-da: KeyError in the keyboard thread - a quit typed inside a Markov level is never honoured
             ('C12.R15', _shared_rule('c07', 'r22_keyspace_types')),
             # C12-eb: restored child probability scaled from the parent's instead of recomputed
-            ('C12.R16', _shared_rule('c01', 'r4_prob_pt_coupling'))]
+            ('C12.R16', _shared_rule('c01', 'r4_prob_pt_coupling')),
+            # C12-fb: remove_option('guessing_info', 'omen_guess_number') slipped under `if limit:`
+            ('C12.R17', _shared_rule('c15', 'r1_one_shot_key'))]
 
 
 META = {
